@@ -26,6 +26,7 @@
 #include <string>
 #include <unordered_set>
 #include <vector>
+#include <type_traits>
 
 #include "prng.hpp"
 #include "json.hpp"
@@ -151,6 +152,12 @@ struct Options
   bool noShrink = false;
 };
 
+// optional members of a property, detected at compile time
+template<class P, class = void> struct HasRefine : std::false_type {};
+template<class P> struct HasRefine<P, std::void_t<decltype(std::declval<const P &>().refine(std::declval<typename P::Plan &>()))>>: std::true_type {};
+template<class P, class = void> struct HasStopAfter : std::false_type {};
+template<class P> struct HasStopAfter<P, std::void_t<decltype(std::declval<const P &>().stopAfterViolations())>>: std::true_type {};
+
 struct FoundViolation
 {
   uint64_t index; std::string cls; std::string detail;
@@ -235,6 +242,20 @@ public:
         Outcome o = runIsolated(c);
         if (!o.ok && o.cls == cls) {plan = c; progress = true; break;}
         if (attempts >= 4000 || wallNow() - t0 > 90) {break;}
+      }
+    }
+    if constexpr (HasRefine<Prop>::value) {
+      // e.g. E3: capture the seeded schedule as an explicit trace, then minimise the trace as well
+      Plan q = plan;
+      if (!refined_ && prop_.refine(q)) {
+        Outcome o = runIsolated(q); ++attempts;
+        if (o.ok || o.cls != cls) {
+          std::printf("note: refined plan (explicit schedule) gave ok=%d class=%s instead of %s; keeping the seeded schedule\n",
+            o.ok, o.cls.c_str(), cls.c_str());
+        }
+        if (!o.ok && o.cls == cls) {
+          refined_ = true; int more = 0; plan = shrink(q, cls, more); attempts += more; refined_ = false;
+        }
       }
     }
     return plan;
@@ -466,6 +487,11 @@ public:
     std::set<std::string> knownPrinted;
     for (auto & kv : byClass) {
       int tried = 0; bool decided = false;
+      if (kv.first.rfind("harness:", 0) == 0) {
+        std::printf("HARNESS-ERROR property=%s: %s (%s) in %zu run(s), first run %llu\n", Prop::id, kv.first.c_str(),
+          kv.second.front().detail.c_str(), kv.second.size(), (unsigned long long)kv.second.front().index);
+        ++harnessErr; continue;
+      }
       for (auto & f : kv.second) {
         if (tried >= 6) {break;}
         ++tried;
@@ -626,6 +652,7 @@ private:
     FILE * vf = fopen((base + ".viol").c_str(), "w");
     uint64_t runs = 0, steps = 0, digest = 0, rechecks = 0, nondet = 0, truncated = 0, nviol = 0;
     double simSeconds = 0;
+    std::map<std::string, int> loggedPerClass;  // at most 20 runs per violation class are logged by a worker
     std::vector<uint64_t> shapeRecs;  // (hash & ~1) | nontrivial
     const size_t shapeCap = 6000000; bool capHit = false;
     for (uint64_t i = start; i < total; i += (uint64_t)W) {
@@ -654,13 +681,16 @@ private:
           if (shapeRecs.size() >= shapeCap * 3 / 4) {capHit = true;}
         }
       }
-      if (!o.ok && nviol < 300) {
-        ++nviol;
+      if (!o.ok) {++nviol;}
+      if (!o.ok && ++loggedPerClass[o.cls] <= 20) {
         std::string d = o.detail; for (auto & ch : d) {if (ch == '\n' || ch == '\t') {ch = ' ';}}
         if (vf) {fprintf(vf, "%llu\t%s\t%s\n", (unsigned long long)i, o.cls.c_str(), d.c_str());
           fflush(vf);}
       }
       gSlot->runsDone = runs;
+      if constexpr (HasStopAfter<Prop>::value) {
+        if (nviol >= prop_.stopAfterViolations()) {truncated = (total - i) / (uint64_t)W; break;}
+      }
     }
     if (vf) {fclose(vf);}
     std::sort(shapeRecs.begin(), shapeRecs.end());
@@ -700,6 +730,7 @@ private:
   }
 
   Prop & prop_;
+  bool refined_ = false;
   Options opt_;
   Slot * slots_ = nullptr;
   std::string tmpDir_;
